@@ -23,6 +23,7 @@ TRUSTED = ["lowering/canonicaliser (sa/terms.py)", "constructor projections AtLe
            "induction hypothesis: negate() of a child is its complement (children are boolean 0/1 nodes)"]
 ASSUMPTIONS = ["models are acyclic (C10)", "compound children take values in {0,1}"]
 NOT_DECIDED = []
+PROTECTED = ["puan.logic.plog.AtLeast.negate"]
 MIN_OBLIGATIONS = 8
 
 NEG = "puan.logic.plog.AtLeast.negate"
